@@ -163,6 +163,7 @@ def check_c14(v: Verdict, t1_summary, n_trees):
                     v.count(repr((ti, strategy, k, x)), n >= 3)
         if len(v.samples) < 3:
             v.samples.append(desc)
+    c14_order_battery(v, hist)
     # the model's acceptance is evaluated for the tree's own order; the real union is built from a set (hash order),
     # and acceptance can depend on the order (finding F23 of C12): such mismatches are counted, not compared
     texts, metas = [], []
@@ -195,3 +196,57 @@ def check_c14(v: Verdict, t1_summary, n_trees):
     v.obligation("correspondence:SUB/C14 (automatic variant: the class every payload is handed to, model = implementation)", not bad,
                  "" if not bad else f"{len(bad)} disagree, first: {metas[bad[0]]}")
     v.coverage["input_distribution"] = hist
+
+
+def c14_order_battery(v: Verdict, hist):
+    """systematic (no randomness): the chain Root > Mid > Leaf plus a sibling Other, every non-empty subset of the subclasses in every
+    order as the `subclasses` argument (and None), both strategies, forbid_extra_keys on/off, both validation modes: every configured
+    (K, descendant instance) pair must round-trip to the exact class"""
+    import itertools
+    Root = attrs.make_class("ORoot", {"a": attrs.field(type=int, kw_only=True)})
+    Mid = attrs.make_class("OMid", {"b": attrs.field(type=int, kw_only=True)}, bases=(Root,))
+    Leaf = attrs.make_class("OLeaf", {"c": attrs.field(type=int, kw_only=True)}, bases=(Mid,))
+    Other = attrs.make_class("OOther", {"d": attrs.field(type=int, kw_only=True)}, bases=(Root,))
+    insts = {Root: Root(a=1), Mid: Mid(a=2, b=3), Leaf: Leaf(a=4, b=5, c=6), Other: Other(a=7, d=8)}
+    args = [None]
+    for k in (1, 2, 3):
+        for sub in itertools.combinations((Mid, Leaf, Other), k):
+            args += list(itertools.permutations(sub))
+    n = 0
+    for arg in args:
+        configured = [Root] + (list(arg) if arg is not None else [Mid, Leaf, Other])
+        for strategy in ("auto", "tagged"):
+            for forbid in (False, True):
+                for dv in (True, False):
+                    conv = Converter(forbid_extra_keys=forbid, detailed_validation=dv)
+                    gc.collect()
+                    kwargs = {} if arg is None else {"subclasses": tuple(arg)}
+                    if strategy == "tagged":
+                        kwargs["union_strategy"] = configure_tagged_union
+                    desc = {"lane": "SUB/C14 order battery", "subclasses_argument": None if arg is None else [c.__name__ for c in arg],
+                            "strategy": strategy, "forbid_extra_keys": forbid, "detailed_validation": dv}
+                    try:
+                        include_subclasses(Root, conv, **kwargs)
+                    except Exception as e:
+                        v.violation("include_subclasses refused a tree whose classes all have a unique required attribute", {**desc, "error": repr(e)})
+                        continue
+                    for K in configured:
+                        for X in configured:
+                            if not issubclass(X, K):
+                                continue
+                            n += 1
+                            rp = {**desc, "structure_as": K.__name__, "instance": repr(insts[X])}
+                            v.count(repr(rp), True)
+                            try:
+                                payload = conv.unstructure(insts[X], unstructure_as=K)
+                                back = conv.structure(payload, K)
+                            except Exception as e:
+                                leaf = not any(c is not K and issubclass(c, K) for c in configured)
+                                if strategy == "tagged" and forbid and leaf and "ForbiddenExtraKeysError" in repr(e) + repr(getattr(e, "exceptions", "")):
+                                    v.finding("F16", "leaf class under the tagged-union strategy + forbid_extra_keys rejects the tag its unstructure hook adds", {**rp, "error": repr(e)})
+                                else:
+                                    v.violation("base-typed round trip raised after include_subclasses", {**rp, "error": repr(e)})
+                                continue
+                            if type(back) is not X or back != insts[X]:
+                                v.violation("base-typed round trip lost the exact subclass or its attributes", {**rp, "payload": payload, "back": repr(back)})
+    hist["order_battery_pairs"] = n
